@@ -1412,19 +1412,10 @@ impl<'a, E: quiver_core::effects::Effect> Compiler<'a, E> {
         function: ast::Function,
         expected_parameter: Option<usize>,
     ) -> Result<usize, Error> {
-        let mut function_params: HashSet<String> = HashSet::new();
-
-        if let Some(ast::Type::Tuple(tuple_type)) = &function.parameter_type {
-            for field in &tuple_type.fields {
-                if let ast::FieldType::Field {
-                    name: Some(field_name),
-                    ..
-                } = field
-                {
-                    function_params.insert(field_name.clone());
-                }
-            }
-        }
+        // The labels of a tuple-typed parameter are not variables of the body (its fields are
+        // reached through `$.x` / `.x`), so a body that names an outer variable spelt like one of
+        // them captures that variable like any other.
+        let function_params: HashSet<String> = HashSet::new();
 
         let unique_captures = variables::collect_free_variables(
             function.body.as_ref(),
